@@ -305,6 +305,7 @@ inductive Effect where
   | mkdir (p : SPath)
   | write (p : SPath) (c : Content)
   | copy (src dst : SPath)
+  | copyInto (src dst : SPath) (name : String)   -- `cp src dst`: into dst/name if dst is a directory, else onto dst
   | convert (src dst : SPath)
   | job (out inp : SPath)
   | remove (p : SPath)
@@ -398,11 +399,7 @@ structure Plan where
   pre : List Pre
   effs : List Effect
 
-inductive PlanT where
-  | plain (p : Plan)
-  | dirSensitive (dst : SPath) (ifDir ifNot : Plan)
-
-def noPlan : PlanT := .plain { pre := [], effs := [] }
+def noPlan : Plan := { pre := [], effs := [] }
 
 def isOption (v : Val) : Bool :=
   match v.toks with
@@ -442,17 +439,15 @@ def submissionDir? : List Val → Option Val
     | some t => some (toksVal t)
     | none => submissionDir? r
 
-def copyPlan (st : St) (a b : Val) : PlanT :=
+def copyPlan (st : St) (a b : Val) : Plan :=
   let src := resolve st.cwd a
   let dst := resolve st.cwd b
   match src.last? with
-  | some n =>
-    .dirSensitive dst { pre := [.isFile src], effs := [.copy src (dst.child n)] }
-      { pre := [.isFile src], effs := [.copy src dst] }
-  | none => .plain { pre := [.static false], effs := [] }
+  | some n => { pre := [.isFile src], effs := [.copyInto src dst n] }
+  | none => { pre := [.static false], effs := [] }
 
 /-- pre-conditions and effects of the tools the scripts call -/
-def toolPlan (st : St) (argv : List Val) : PlanT :=
+def toolPlan (st : St) (argv : List Val) : Plan :=
   match argv with
   | [] => noPlan
   | name :: args =>
@@ -463,29 +458,29 @@ def toolPlan (st : St) (argv : List Val) : PlanT :=
       let hasOpts := args.any isOption
       if n = "mkdir".toList then
         let ps := operands.map (resolve st.cwd)
-        .plain { pre := if hasOpts then [] else ps.map .absent, effs := ps.map .mkdir }
+        { pre := if hasOpts then [] else ps.map .absent, effs := ps.map .mkdir }
       else if n = "cp".toList ∨ n = "xrdcp".toList then
         match args with
         | [a, b] => if hasOpts then noPlan else copyPlan st a b
         | _ => noPlan
       else if n = "rm".toList then
-        .plain { pre := [], effs := operands.map (fun a => .remove (resolve st.cwd a)) }
+        { pre := [], effs := operands.map (fun a => .remove (resolve st.cwd a)) }
       else if n = "python".toList then
         match submissionDir? args with
         | some d =>
           let p := resolve st.cwd d
-          .plain { pre := [.absent p],
+          { pre := [.absent p],
                    effs := [.mkdir p, .mkdir (p.child "data-ANALYSIS"),
                             .job ((p.child "data-ANALYSIS").child "ANALYSIS.root") (st.cwd.child "filelist.txt")] }
         | none => noPlan
       else if n = "cmsRun".toList then
-        .plain { pre := [.static (st.exported.contains "CMS_OUTPUT_FILE")],
+        { pre := [.static (st.exported.contains "CMS_OUTPUT_FILE")],
                  effs := [.job (resolve st.cwd (st.get "CMS_OUTPUT_FILE")) (st.cwd.child "filelist.txt")] }
       else if n = "mkedanlzr".toList then
         match operands with
         | [a] =>
           let p := resolve st.cwd a
-          .plain { pre := [.absent p], effs := [.mkdir p, .mkdir (p.child "src"), .mkdir (p.child "plugins"), .mkdir (p.child "python")] }
+          { pre := [.absent p], effs := [.mkdir p, .mkdir (p.child "src"), .mkdir (p.child "plugins"), .mkdir (p.child "python")] }
         | _ => noPlan
       else if n = "root".toList then
         match args.getLast? with
@@ -493,7 +488,7 @@ def toolPlan (st : St) (argv : List Val) : PlanT :=
           match macroArgs m with
           | some (a, b) =>
             let src := resolve st.cwd a
-            .plain { pre := [.isFile src], effs := [.convert src (resolve st.cwd b)] }
+            { pre := [.isFile src], effs := [.convert src (resolve st.cwd b)] }
           | none => noPlan
         | none => noPlan
       else noPlan
@@ -510,11 +505,8 @@ def runCmd (st : St) (kind : CmdKind) (argv : List Val) (extra : List Effect) : 
   let c : Cmd := { kind := kind, argv := argv }
   let stOk : St := { st with ncmd := st.ncmd + 1, last := .lit 0 }
   let stFail : St := { st with ncmd := st.ncmd + 1 }
-  let node (p : Plan) : Tree Res :=
-    .cmd c p.pre (extra ++ p.effs) (.ret (.norm stOk)) (failWith stFail (.statusOf st.ncmd))
-  match (if kind = .ext then toolPlan st argv else noPlan) with
-  | .plain p => node p
-  | .dirSensitive dst a b => .ask (.isDir dst) (node a) (node b)
+  let p : Plan := if kind = .ext then toolPlan st argv else noPlan
+  .cmd c p.pre (extra ++ p.effs) (.ret (.norm stOk)) (failWith stFail (.statusOf st.ncmd))
 
 def staticOrAsk (a b : Val) : Tree Bool :=
   match a.chars?, b.chars? with
@@ -641,6 +633,8 @@ def applyEff (inv idx : Nat) (fs : FS) : Effect → FS
   | .mkdir p => fs.set p .dir
   | .write p c => fs.set p (.file c)
   | .copy src dst => fs.set dst (.file (fs.content src))
+  | .copyInto src dst name =>
+    if fs dst = .dir then fs.set (dst.child name) (.file (fs.content src)) else fs.set dst (.file (fs.content src))
   | .convert src dst => fs.set dst (.file (.converted (fs.content src)))
   | .job out inp => fs.set out (.file (.jobOut inv idx (fs.content inp)))
   | .remove p => fun q => if q.isUnder p then .absent else fs q
